@@ -1,4 +1,5 @@
 //! hcv: conformance harness binding the TLA+ specifications in /verif/spec to Heathcliff.
+mod c07;
 mod c08;
 mod c09;
 mod c10;
@@ -69,6 +70,7 @@ fn main() {
             }
             out_line(&json!({"done": true}));
         }
+        "c07" => c07::main(&args[2..]),
         "c08" => c08::main(&args[2..]),
         "c17" => c17::main(&args[2..]),
         "c18" => c18::main(&args[2..]),
